@@ -81,6 +81,8 @@ func run(c *props.Ctx) {
 	w.ruleSem(a)
 	lap("scene")
 	w.ruleInst(a)
+	w.ruleInst2(a)
+	w.ruleTRS(a)
 	w.ruleEq(a, stats)
 	lap("eq")
 
